@@ -3302,7 +3302,11 @@ impl Value {
                 binding_map_keys,
             } = ret
             {
-                let need_convert = if let Expression::Plus { right, .. } = &*expression {
+                // the text can be appended to the last string only if that string was created here
+                // (a `+` with a string literal on the right may also be written by the user)
+                let need_convert = if !has_wrap_to_string {
+                    true
+                } else if let Expression::Plus { right, .. } = &*expression {
                     if let Expression::LitStr { .. } = &**right {
                         false
                     } else {
@@ -3343,7 +3347,13 @@ impl Value {
                 ret
             };
             let (ret_value, ret_location, ret_location2) = match &mut ret {
-                Self::Static { value, location } => (value, location, None),
+                Self::Static { value, location } => {
+                    if value.is_empty() {
+                        // nothing but empty bindings before: the text starts here
+                        location.start = start_pos;
+                    }
+                    (value, location, None)
+                }
                 Self::Dynamic {
                     expression,
                     double_brace_location,
